@@ -540,6 +540,10 @@ def install(I: Interp, fs: dict):
     M[("Col", "apply")] = c_apply
     M[("Col", "__iter__")] = lambda I, c, a, k, n: list(c.values)
     M[("Col", "tolist")] = lambda I, c, a, k, n: list(c.values)
+    # Series.any() / all(): truth of the cells (missing cells are skipped, as pandas does with skipna=True); a cell whose truth is not
+    # known forks through the interpreter's own truth()
+    M[("Col", "any")] = lambda I, c, a, k, n: any(I.truth(v, n) for v in c.values if v is not NAN)
+    M[("Col", "all")] = lambda I, c, a, k, n: all(I.truth(v, n) for v in c.values if v is not NAN)
     A[("Col", "values")] = lambda I, c, n: c
     A[("Col", "empty")] = lambda I, c, n: len(c.values) == 0
     A[("Col", "dtype")] = lambda I, c, n: Obj(kind="DType", attrs={"name": c.dtype or ("object" if any(isinstance(v, (Tok, str)) for v in c.values) else "float64")})
